@@ -145,6 +145,9 @@ func shapes(family int) []cfgShape {
 	case 0:
 		return []cfgShape{
 			{name: "schemaless", rels: []string{"r0", "r1"}, ns: &namespace.Namespace{Name: nsN}},
+			// two namespaces that use the same relation name (and share the object names)
+			{name: "schemaless-two-namespaces", rels: []string{"r0", "r0"}, relNS: []string{nsN, "M"}, ns: &namespace.Namespace{Name: nsN},
+				nss: []*namespace.Namespace{{Name: nsN}, {Name: "M"}}},
 			mkShape("plain", relPlain("r0"), relPlain("r1")),
 			mkShape("subject-set-typed", r0, r1),
 		}
@@ -193,6 +196,12 @@ func shapes(family int) []cfgShape {
 			mkShape("p1=permits(p0)&&inc(r1);p0=inc(r0)", r0, r1, perm("p0", or(inc("r0"))), perm("p1", and(inc("p0"), inc("r1")))),
 			// && whose operands are all nested rewrites (they see the depth limit one level earlier)
 			mkShape("p=(inc(r0)||inc(r1))&&(inc(r1)||inc(r0))", r0, r1, perm("p0", and(gor(inc("r0"), inc("r1")), gor(inc("r1"), inc("r0"))))),
+		}
+	case 5:
+		// traversal set (two rows are needed for a traversal to succeed)
+		return []cfgShape{
+			mkShape("p=ttu(r1->r0)", r0, r1, perm("p0", or(ttu("r1", "r0")))),
+			mkShape("p=!ttu(r1->r0)", r0, r1, perm("p0", or(not(ttu("r1", "r0"))))),
 		}
 	case 3:
 		return []cfgShape{
